@@ -291,7 +291,7 @@ def run_harness(binary, mode, cases=None, seed=1, n=100, extra=()):
 
 # ------------------------------------------------------------------ whole runs (validation)
 
-SAMPLES = ['fir', 'matrixtranspose', 'atax']
+SAMPLES = ['fir', 'matrixtranspose', 'atax', 'relu']
 WORKLOADS = [('fir', ['-length=1024']), ('matrixtranspose', ['-width=128']), ('atax', ['-x=64', '-y=64'])]
 GPUSETS_QUICK = [['-gpus=1'], ['-gpus=1,2'], ['-unified-gpus=1,2']]
 # the runner sizes the platform by the last ID of the list: GPU lists must be ascending
@@ -308,15 +308,26 @@ def build_samples():
 
 
 def one_run(args):
+    """One whole run in a scratch directory under a timeout.  A run that printed its
+    verification result and then died in the tear-down race of the sample runner
+    (C01 finding teardown-race: 'assignment to entry in nil map' on the engine
+    goroutine after simulation.Terminate()) is repeated, at most twice."""
     bindir, name, opts, timeout = args
-    d = tempfile.mkdtemp(prefix='c18run_', dir=vlib.BUILD)
-    t0 = time.time()
-    try:
-        rc, log = vlib.run([os.path.join(bindir, name)] + opts + ['-verify', '-disable-rtm'], cwd=d, timeout=timeout)
-    finally:
-        shutil.rmtree(d, ignore_errors=True)
+    retries = 0
+    while True:
+        d = tempfile.mkdtemp(prefix='c18run_', dir=vlib.BUILD)
+        t0 = time.time()
+        try:
+            rc, log = vlib.run([os.path.join(bindir, name)] + opts + ['-verify', '-disable-rtm'], cwd=d, timeout=timeout)
+        finally:
+            shutil.rmtree(d, ignore_errors=True)
+        if rc not in (0, 124) and 'Passed' in log and 'assignment to entry in nil map' in log and retries < 2:
+            retries += 1
+            continue
+        break
     return {'cmd': [name] + opts + ['-verify'], 'rc': rc, 'passed': rc == 0 and 'Passed' in log,
             'timeout': rc == 124, 'verify_failed': 'mismatch' in log or 'failed to verify' in log,
+            'teardown_race_retries': retries,
             'wall_s': round(time.time() - t0, 2), 'tail': log[-600:]}
 
 
@@ -455,20 +466,33 @@ def main(argv):
                 rep.violation({'broken': 'go build of amd/samples failed', 'log': blog[-4000:]}, nofail=True, text='sample build failed')
             else:
                 runs = whole_runs(bindir, thorough)
-                if thorough:
-                    # recorded finding: fir -timing over GPUs behind different PCIe switches never terminates
-                    w = one_run((bindir, 'fir', ['-length=1024', '-gpus=1,2,3,4', '-timing'], 40))
-                    if w['timeout']:
-                        rep.known_finding(key='timing-discrete-3gpu-hang', text='fir -timing -gpus=1,2,3,4 does not terminate (a command in flight never completes when '
-                                          'queues address GPUs behind different PCIe switches); excluded from the sampled runs')
-                    elif not w['passed']:
+                # Witnesses of the recorded findings, run on every check.  While a key is open a
+                # witness that still fails in the recorded way prints KNOWN-FINDING; once the
+                # finding is fixed the witness passes (and, with the key no longer open, a
+                # relapse is a VIOLATION).  Any other failure of a witness is a VIOLATION.
+                hang = 'does not terminate: a MemCopy command whose FlushReq to a busy GPU returns after its copy responses is never dequeued (driver memorycopy.go processFlushReturn)'
+                witnesses = [
+                    ('timing-discrete-3gpu-hang', 'timeout', 'fir -length=1024 -gpus=1,2,3,4 -timing ' + hang,
+                     (bindir, 'fir', ['-length=1024', '-gpus=1,2,3,4', '-timing'], 25)),
+                    ('timing-discrete-3gpu-hang', 'timeout', 'relu -length=128 -gpus=1,2 -timing ' + hang,
+                     (bindir, 'relu', ['-length=128', '-gpus=1,2', '-timing'], 25)),
+                    ('matrixtranspose-wg-column-remainder', 'verify_failed',
+                     'matrixtranspose -width=64 -gpus=1,2 -verify fails: the benchmark gives each GPU numWGWidth/numGPUs work-group '
+                     'columns and drops the remainder (here 1/2 = 0 columns); widths with (width/64) % numGPUs == 0 pass',
+                     (bindir, 'matrixtranspose', ['-width=64', '-gpus=1,2'], 120)),
+                ]
+                with ThreadPoolExecutor(max_workers=3) as ex:
+                    wres = list(ex.map(one_run, [w[3] for w in witnesses]))
+                reported = set()
+                for (key, how, text, _), w in zip(witnesses, wres):
+                    if w['passed']:
                         runs.append(w)
-                # recorded finding: matrixtranspose splits work-group columns by integer division
-                w = one_run((bindir, 'matrixtranspose', ['-width=64', '-gpus=1,2'], 120))
-                if not w['passed'] and not w['timeout'] and w['verify_failed']:
-                    rep.known_finding(key='matrixtranspose-wg-column-remainder', text='matrixtranspose -width=64 -gpus=1,2 -verify fails: the benchmark gives each GPU '
-                                      'numWGWidth/numGPUs work-group columns and drops the remainder (here 1/2 = 0 columns); '
-                                      'widths with (width/64) % numGPUs == 0 pass')
+                    elif w[how] and (how != 'verify_failed' or not w['timeout']):
+                        if key not in reported:
+                            reported.add(key)
+                            rep.known_finding(key=key, text=text)
+                    else:
+                        runs.append(w)
 
     run_fail = [r for r in runs if not r['passed']]
     rep.obligation('validation (not proof): %d whole runs with -verify pass for 1 GPU, 2 GPUs, unified 2-GPU device' % len(runs), not run_fail)
@@ -495,6 +519,7 @@ def main(argv):
         'distribute_fewer_pages_than_gpus': sum(1 for c in dcases if not c['panic'] and c['bytes'] and ((c['bytes'] - 1) >> c['log2ps']) + 1 < len(c['gpus'])),
         'split_cases': len(scases), 'split_exhaustive': sum(1 for c in scases if c.get('exhaustive')),
         'split_workgroups_filtered': sum(c.get('total_wg', 0) for c in scases if c.get('exhaustive')),
+        'whole_run_teardown_race_retries': sum(r.get('teardown_race_retries', 0) for r in runs),
         'whole_runs': [{'cmd': ' '.join(r['cmd']), 'passed': r['passed'], 'wall_s': r['wall_s']} for r in runs],
         'model_mismatches': len(mism) + len(dmism) + len(smism),
         'monitor_failures': len(bad) + len(dbad) + len(sbad) + len(run_fail),
